@@ -77,3 +77,73 @@ fn c14_w_numberlike_is_quoted_4() {
     }
     w_check(&b);
 }
+
+// Longer spellings by FAMILY: the prefix that selects the family is concrete, the rest symbolic, so
+// that the 4- and 5-byte reserved spellings (`.inf`, `.nan`, `-.inf`, `+.INF`, `false`) are inside the
+// quick tier without paying for all 2^28 / 2^35 ASCII strings of that length.
+
+//@ tier: quick
+//@ funcs: write::yaml::must_quote, write::yaml::ns_plain_one_line
+//@ bounds: every ASCII string of length 4 that starts with a dot (`.` + 3 symbolic bytes < 0x80: `.inf`, `.Inf`, `.INF`, `.nan`, `.NaN`, `.NAN`, `.5xx`, ...)
+//@ asserts: W: core-schema keywords and number-like strings are quoted by the writer
+/// As `w_check`, for a family whose members the current writer may quote altogether (everything that
+/// starts with a dot is quoted today): the witnesses are that the family has members on both sides of
+/// the interpolant, not that some member is written plain.
+fn w_check_family(b: &[u8]) {
+    if m_mid(b) {
+        assert!(must_quote(b), "a keyword- or number-like text string is written as a plain scalar");
+    }
+    kani::cover!(!m_mid(b));
+    kani::cover!(m_mid(b));
+}
+
+#[kani::proof]
+#[kani::unwind(30)]
+fn c14_w_dot_family_4() {
+    let b: [u8; 4] = kani::any();
+    kani::assume(b[0] == b'.');
+    let mut k = 1;
+    while k < 4 {
+        kani::assume(b[k] < 0x80);
+        k += 1;
+    }
+    w_check_family(&b);
+    kani::cover!(b[1] == b'i' && m_mid(&b));
+}
+
+//@ tier: quick
+//@ funcs: write::yaml::must_quote, write::yaml::ns_plain_one_line
+//@ bounds: every ASCII string of length 5 that starts with a sign and a dot (`+.` / `-.` + 3 symbolic bytes < 0x80: the signed infinities `-.inf`, `+.Inf`, `-.INF`, ..., `-.5x`, ...)
+//@ asserts: W: core-schema keywords and number-like strings are quoted by the writer
+#[kani::proof]
+#[kani::unwind(30)]
+fn c14_w_signed_dot_family_5() {
+    let b: [u8; 5] = kani::any();
+    kani::assume(b[0] == b'-' || b[0] == b'+');
+    kani::assume(b[1] == b'.');
+    let mut k = 2;
+    while k < 5 {
+        kani::assume(b[k] < 0x80);
+        k += 1;
+    }
+    w_check_family(&b);
+    kani::cover!(b[2] == b'I' && m_mid(&b));
+}
+
+//@ tier: quick
+//@ funcs: write::yaml::must_quote, write::yaml::ns_plain_one_line
+//@ bounds: every ASCII string of length 5 that starts with `f` or `F` (4 symbolic bytes < 0x80: `false`, `False`, `FALSE`)
+//@ asserts: W: core-schema keywords and number-like strings are quoted by the writer
+#[kani::proof]
+#[kani::unwind(30)]
+fn c14_w_false_family_5() {
+    let b: [u8; 5] = kani::any();
+    kani::assume(b[0] == b'f' || b[0] == b'F');
+    let mut k = 1;
+    while k < 5 {
+        kani::assume(b[k] < 0x80);
+        k += 1;
+    }
+    w_check_family(&b);
+    kani::cover!(m_mid(&b));
+}
